@@ -33,7 +33,7 @@ def make(sid, specs, order, allsym, full_index, orders):
         info = {"files": [s.text() for s in specs], "order": order, "error": err}
         env = {"lengths": [s.length for s in specs], "kinds": [s.kind for s in specs], "names": [s.name for s in specs],
                "order": order, "err": err, "streams": [len(OD.expected_stream(d)) for d in descs], "stage": "write",
-               "adjacent": None, "tailroom": None, "rerr": None}
+               "adjacent": None, "tailroom": None, "rerr": None, "near_end": False}
         if buf is None:
             return ctx.known(PID, {"part": "roundtrip"}, env), info
         got, rerr = read_back(buf[:])
@@ -46,7 +46,19 @@ def make(sid, specs, order, allsym, full_index, orders):
         env["stage"] = "read"
         env["rerr"] = rerr
         return ctx.known(PID, {"part": "roundtrip"}, env), info
-    return Ob("C07:rt:" + sid, body, timeout=300, tags={"part": "roundtrip"}, text="%s [%s]" % (" + ".join(s.text() for s in specs), order))
+    return Ob("C07:rt:" + sid, body, timeout=(1500 if "big" in sid or "55000" in sid else 300), tags={"part": "roundtrip"}, text="%s [%s]" % (" + ".join(s.text() for s in specs), order))
+
+
+def _near_end(chains, descs):
+    """some granule of a chain lies so close to the physical end of the image that fewer bytes remain behind its start
+    than the file still has to deliver from there on"""
+    for ch, d in zip(chains, descs):
+        remaining = len(OD.expected_stream(d))
+        for g in ch:
+            if OD.IMAGE_SIZE - OD.gran_offset(g) < remaining:
+                return True
+            remaining -= OD.GRAN
+    return False
 
 
 def make_foreign(sid, specs, chains, allsym=8):
@@ -63,7 +75,7 @@ def make_foreign(sid, specs, chains, allsym=8):
             return True, info
         adjacent = all(all(OD.gran_offset(b) == OD.gran_offset(a) + OD.GRAN for a, b in zip(c, c[1:])) for c in chains)
         env = {"chains": chains, "adjacent": adjacent, "rerr": rerr, "err": None, "order": None, "lengths": [s.length for s in specs], "stage": "read",
-               "tailroom": [OD.IMAGE_SIZE - OD.gran_offset(ch[0]) for ch in chains],
+               "tailroom": [OD.IMAGE_SIZE - OD.gran_offset(ch[0]) for ch in chains], "near_end": _near_end(chains, descs),
                "kinds": [s.kind for s in specs], "streams": [len(OD.expected_stream(d)) for d in descs]}
         return ctx.known(PID, {"part": "foreign"}, env), info
     return Ob("C07:foreign:" + sid, body, timeout=300, tags={"part": "foreign"},
